@@ -187,6 +187,24 @@ class LenList(list):
         return self.n
 
 
+class FastLocus:
+    """light stand-in for hl.Locus in the dense (length, size) sweep of calc_parts: the real classes cost ~0.2 ms per interval"""
+    __slots__ = ('contig', 'position', 'reference_genome')
+
+    def __init__(self, contig, position, reference_genome=None):
+        self.contig, self.position, self.reference_genome = contig, position, reference_genome
+
+
+class FastInterval:
+    __slots__ = ('start', 'end', 'includes_start', 'includes_end')
+
+    def __init__(self, start, end, includes_start=True, includes_end=False):
+        self.start, self.end, self.includes_start, self.includes_end = start, end, includes_start, includes_end
+
+    def __repr__(self):
+        return f'{"[" if self.includes_start else "("}{self.start.contig}:{self.start.position}-{self.end.position}{"]" if self.includes_end else ")"}'
+
+
 class FakeType:
     def __init__(self, *a, **k):
         pass
@@ -376,7 +394,70 @@ class C38(Prop):
                       'variant_dataset_combiner.py runs with its module globals hl/VariantDataset/tmatrix/combine*/info replaced by the recorder')
 
     def extra_coverage(self):
-        return {'import_route': getattr(self, 'route', None)}
+        return {'import_route': getattr(self, 'route', None), 'dense_partition_sweep': getattr(self, 'sweep_note', None)}
+
+    # ---- dense sweep of the partitioning arithmetic (oracle only; hl.Interval/hl.Locus replaced by light stand-ins) -----------------
+    def _sweep_pairs(self, tier, rng):
+        from math import isqrt
+        top = 1200
+        for L in range(1, top + 1):
+            if tier == 'quick':
+                # every size for short contigs; for longer ones the sizes that give at most ~32 intervals, up to 2*sqrt(L)+6
+                lo = 1 if L <= 100 else max(1, L // 32)
+                hi = min(L + 1, 2 * isqrt(L) + 6)
+            else:
+                lo, hi = 1, min(L + 1, max(2 * isqrt(L) + 6, 300))
+            for size in range(lo, hi + 1):
+                yield L, size
+        # real contig lengths: chrM with every small size; the others around sqrt(length) and at a few other sizes
+        for L in [16569, 16571]:
+            for size in (range(40, 400) if tier == 'quick' else range(1, 2001)):
+                yield L, size
+        real = [248956422, 57227415, 46709983] if tier == 'quick' else [248956422, 242193529, 57227415, 156040895, 46709983, 50818468]
+        for L in real:
+            r = isqrt(L)
+            sizes = {2 * r, 3 * r, 10 * r, 1_200_000, 60_000_000, L, L - 1, L + 1, (L + 1) // 2}
+            if tier != 'quick':
+                sizes |= {r, r + 1, r - 1, r // 2}
+            for _ in range(3 if tier == 'quick' else 40):
+                sizes.add(rng.randint(2 * r if tier == 'quick' else max(1, r // 4), 50 * r))
+            for size in sorted(sizes):
+                yield L, size
+
+    def extra_checks(self, repo, tier, rng):
+        cb = self.cb
+        real_hl = cb.hl
+        by_size = {}
+        n_pairs = 0
+        for L, size in self._sweep_pairs(tier, rng):
+            by_size.setdefault(size, []).append(L)
+            n_pairs += 1
+        failures = []
+        n_iv = 0
+        contigs = self.CONTIGS38
+        cb.hl = types.SimpleNamespace(Interval=FastInterval, Locus=FastLocus, utils=real_hl.utils)
+        try:
+            for size, ls in by_size.items():
+                for k in range(0, len(ls), 25):
+                    chunk = ls[k:k + 25]
+                    chunk = chunk + [1] * (25 - len(chunk))
+                    rg = self.ReferenceGenome('GRCh38', contigs, dict(zip(contigs, chunk)), _builtin=True)
+                    ivs = cb.calculate_even_genome_partitioning(rg, size)
+                    n_iv += len(ivs)
+                    m = self._tiling_problem(ivs, contigs, chunk, size, rg)
+                    if m:
+                        failures.append(({'kind': 'part', 'name': 'GRCh38', 'lengths': chunk, 'size': size}, m))
+                        if len(failures) >= 3:
+                            raise StopIteration
+        except StopIteration:
+            pass
+        finally:
+            cb.hl = real_hl
+        self.sweep_note = (f'{n_pairs} (contig length, interval size) pairs: lengths 1..1200 x sizes up to max(2*sqrt(L)+6'
+                           f'{", 300" if tier != "quick" else ""}) (quick: sizes giving <= ~32 intervals for L > 100), chrM x small sizes, '
+                           f'real contigs around multiples of sqrt(length); '
+                           f'{n_iv} intervals checked by the tiling/size oracle (light Interval/Locus stand-ins)')
+        return failures
 
     # ------------------------------------------------------------------------------------------
     CONTIGS38 = [f'chr{i}' for i in range(1, 23)] + ['chrX', 'chrY', 'chrM']
